@@ -106,6 +106,10 @@ func init() {
 			Params: map[string]int{"MAXWH": 2, "TYPE": typ}, ParamsT: map[string]int{"MAXWH": 3}, Reach: []string{"small/done"}, Cfg: stub})
 	}
 	p.Harnesses = append(p.Harnesses, HSpec{Prop: "C19", Pkg: "lib/uncompng", Dir: "c19", Func: "VH_C19_Args", Reach: []string{"args/done"}})
+	for _, typ := range []int{0, 4} {
+		p.Harnesses = append(p.Harnesses, HSpec{Prop: "C19", Pkg: "lib/uncompng", Dir: "c19", Func: "VH_C19_Header", Label: fmt.Sprintf("[type=%d]", typ),
+			Params: map[string]int{"TYPE": typ}, Reach: []string{"header/done"}, Cfg: stub})
+	}
 	for _, tier := range []string{"quick", "thorough"} {
 		cfgs := c19Configs(tier == "thorough")
 		for i, c := range cfgs {
